@@ -230,6 +230,9 @@ func ZZ_C02_Compile() {
 	)
 	callVars := ast.NewVars()
 	callVars.Set("V", ast.Var{Value: v})
+	loopVars := ast.NewVars()
+	loopVars.Set("V", ast.Var{Value: "{{.ITEM}}"})
+	loopVars.Set("R", ast.Var{Ref: ".ITEM"})
 	t := &ast.Task{Task: "t", Location: &ast.Location{Taskfile: "/d/f.yml"}, Vars: ast.NewVars(), Env: ast.NewVars(),
 		Cmds: []*ast.Cmd{
 			{Cmd: "first"},
@@ -237,11 +240,19 @@ func ZZ_C02_Compile() {
 			{Task: "callee", Vars: callVars},
 			{Cmd: "m {{.ITEM.OS}} {{.ITEM.ARCH}}", For: &ast.For{Matrix: matrix}},
 			{Cmd: "last"},
+			// a call per loop item: the item reaches the callee as text and as a ref
+			{Task: "callee", Vars: loopVars, For: &ast.For{List: []any{x0, x1}}},
 		},
 		Deps: []*ast.Dep{{Task: "d-{{.ITEM}}", For: &ast.For{List: []any{x0, x1}}}},
 	}
 	callee := &ast.Task{Task: "callee", Location: &ast.Location{Taskfile: "/d/f.yml"}, Vars: ast.NewVars(), Env: ast.NewVars(),
 		Cmds: []*ast.Cmd{{Cmd: "got {{.V}}"}}}
+	if zz.Bool("callee_comes_from_an_included_file_that_defines_V") {
+		// the variables of the call win over the included Taskfile's own default
+		callee.IncludedTaskfileVars = ast.NewVars()
+		callee.IncludedTaskfileVars.Set("V", ast.Var{Value: "file-default"})
+		callee.IncludeVars = ast.NewVars()
+	}
 	tf := &ast.Taskfile{Vars: ast.NewVars(), Env: ast.NewVars(), Tasks: ast.NewTasks(), Run: "always", Method: "checksum"}
 	tf.Vars.Set("OSLIST", ast.Var{Value: []any{o0, o1}})
 	tf.Vars.Set("ARCHLIST", ast.Var{Value: []any{a0, a1}})
@@ -257,7 +268,7 @@ func ZZ_C02_Compile() {
 	if err != nil || ct == nil {
 		return
 	}
-	want := []string{"first", "item " + x0, "item " + x1, "item " + x2, "", "m " + o0 + " " + a0, "m " + o0 + " " + a1, "m " + o1 + " " + a0, "m " + o1 + " " + a1, "last"}
+	want := []string{"first", "item " + x0, "item " + x1, "item " + x2, "", "m " + o0 + " " + a0, "m " + o0 + " " + a1, "m " + o1 + " " + a0, "m " + o1 + " " + a1, "last", "", ""}
 	zz.Assert(len(ct.Cmds) == len(want), "for-expansion/number-of-commands")
 	if len(ct.Cmds) == len(want) {
 		for k := range want {
@@ -272,6 +283,18 @@ func ZZ_C02_Compile() {
 		zz.Assert(ok && cvs == v, "call-vars/passed")
 		sub, err := e.CompiledTask(&Call{Task: ct.Cmds[4].Task, Vars: ct.Cmds[4].Vars, Indirect: true})
 		zz.Assert(err == nil && sub != nil && len(sub.Cmds) == 1 && sub.Cmds[0].Cmd == "got "+v, "call-vars/seen-by-callee")
+	}
+	if len(ct.Cmds) == len(want) {
+		for k, item := range []string{x0, x1} {
+			c := ct.Cmds[10+k]
+			zz.Assert(c.Task == "callee", "for-expansion/call-per-item")
+			tv, _ := c.Vars.Get("V")
+			tvs, _ := tv.Value.(string)
+			rv, _ := c.Vars.Get("R")
+			rvs, _ := rv.Value.(string)
+			zz.Assert(tvs == item, "call-vars/loop-item-passed-as-text")
+			zz.Assert(rvs == item, "call-vars/loop-item-passed-as-ref")
+		}
 	}
 	zz.Assert(len(ct.Deps) == 2 && ct.Deps[0].Task == "d-"+x0 && ct.Deps[1].Task == "d-"+x1, "for-expansion/deps")
 	if zz.Twin() {
@@ -507,7 +530,7 @@ func zzShapeC03(n int) (*zzGraph, []string) {
 			{Name: "P", Deps: []string{"S", "F"}},
 			{Name: "Q", Deps: []string{"S"}, Cmds: []zzCmd{probe}},
 			{Name: "F", Cmds: []zzCmd{probe}},
-			{Name: "S", Run: "once", Cmds: []zzCmd{probe}},
+			{Name: "S", Run: "once", IgnoreError: zz.Bool("ignore.S"), Cmds: []zzCmd{probe}},
 		}}, []string{"R"}
 	case 3: // failure in a shared run-once task with a concurrent sibling
 		return &zzGraph{Tasks: []zzTask{
@@ -590,17 +613,25 @@ func ZZ_C06_RunModes() {
 	}
 	tr, err := zzExec(g, tf, zzRunOpts{}, "R")
 	n := zzCount(tr, "S", "S.0")
+	// a failing command elsewhere cancels work that has not started: the exact counts are
+	// required only when nothing fails
+	nothingFails := true
+	for _, c := range g.exit {
+		if c != 0 {
+			nothingFails = false
+		}
+	}
 	switch mode {
 	case "once":
 		zz.Assert(n <= 1, "once/at-most-one-execution")
 	case "when_changed":
 		if v1 == v2 {
 			zz.Assert(n <= 1, "when_changed/one-execution-per-distinct-binding")
-		} else if g.exit["S.0"] == 0 {
+		} else if nothingFails {
 			zz.Assert(n == 2, "when_changed/one-execution-per-distinct-binding")
 		}
 	case "always":
-		if g.exit["S.0"] == 0 {
+		if nothingFails {
 			zz.Assert(n == 2, "always/one-execution-per-reference")
 		}
 	}
@@ -671,6 +702,78 @@ func ZZ_C07_Concurrency() {
 	if zz.Native() && n != 1 {
 		zz.Assert(zzMaxRunning(tr) >= 2, "must-reach/independent-deps-overlap")
 	}
+	if zz.Twin() {
+		zz.Assert(false, "twin")
+	}
+	zz.Reach("end")
+}
+
+// ZZ_C07_Cycle: a cycle of task references that goes through a deduplicated (run: once /
+// when_changed) task. The call counter does not help here: the second reference waits for
+// the first execution, which waits for the second reference. The invocation must end with an
+// error, not hang (the engine reports a state with unfinished goroutines and nothing enabled
+// as a deadlock; natively a watchdog does).
+func ZZ_C07_Cycle() {
+	probe := zzCmd{}
+	mode := []string{"once", "when_changed"}[zz.Choose("run_mode_of_A", 2)]
+	var g *zzGraph
+	switch zz.Choose("cycle_through", 2) {
+	case 0: // dependencies
+		g = &zzGraph{Tasks: []zzTask{
+			{Name: "A", Run: mode, Deps: []string{"B"}, Cmds: []zzCmd{probe}},
+			{Name: "B", Deps: []string{"A"}, Cmds: []zzCmd{probe}},
+		}}
+	default: // task calls
+		g = &zzGraph{Tasks: []zzTask{
+			{Name: "A", Run: mode, Cmds: []zzCmd{{Call: "B"}, probe}},
+			{Name: "B", Cmds: []zzCmd{{Call: "A"}, probe}},
+		}}
+	}
+	tf := g.build(func(string) bool { return false })
+	n := zz.Choose("concurrency", 3)
+	tr, err := zzExec(g, tf, zzRunOpts{Concurrency: n}, "A")
+	zz.Assert(err != nil, "cyclic-references-end-with-an-error")
+	zz.Assert(zzCount(tr, "S", "A.0")+zzCount(tr, "S", "A.1") == 0, "cyclic-task-runs-no-command")
+	if zz.Twin() {
+		zz.Assert(false, "twin")
+	}
+	zz.Reach("end")
+}
+
+// ZZ_C07_FailingDynamicVar: a dynamic (sh:) variable whose command fails makes its task
+// fail; whatever evaluates variables afterwards in the same invocation (a deferred command
+// of the caller, a sibling) must not block on the compiler's cache lock: the invocation
+// terminates (the engine reports a state where nothing is enabled as a deadlock).
+func ZZ_C07_FailingDynamicVar() {
+	probe := zzCmd{}
+	g := &zzGraph{Tasks: []zzTask{
+		{Name: "R", Cmds: []zzCmd{{Defer: true}, {Call: "B"}, probe}},
+		{Name: "B", Cmds: []zzCmd{probe}},
+	}}
+	tf := g.build(func(string) bool { return false })
+	sh := func(text string) ast.Var { s := text; return ast.Var{Sh: &s} }
+	rt, _ := tf.Tasks.Get("R")
+	bt, _ := tf.Tasks.Get("B")
+	rt.Vars.Set("STAMP", sh("echo stamp"))
+	if zz.Bool("variable_of_the_called_task_fails") {
+		bt.Vars.Set("REV", sh("exit 3"))
+	} else {
+		bt.Vars.Set("REV", sh("echo rev"))
+	}
+	prev := zzProbe
+	_ = prev
+	tr, err := zzExecWithShell(g, tf, func(ctx context.Context, opts *execext.RunCommandOptions) error {
+		if opts.Command == "exit 3" {
+			return interp.NewExitStatus(3)
+		}
+		return zzProbe(ctx, opts)
+	}, "R")
+	failed := false
+	if v, ok := bt.Vars.Get("REV"); ok && v.Sh != nil && *v.Sh == "exit 3" {
+		failed = true
+	}
+	zz.Assert((err != nil) == failed, "a-failing-dynamic-variable-fails-the-invocation")
+	zz.Assert(zzCount(tr, "S", "R.0") == 1, "the-callers-deferred-command-still-runs")
 	if zz.Twin() {
 		zz.Assert(false, "twin")
 	}
@@ -1138,16 +1241,31 @@ func ZZ_K_TwoCallers() {
 // observes its own outcome.
 func ZZ_C06_DistinctOnce() {
 	probe := zzCmd{}
+	first, second := "docker:build", "npm:build"
+	flattened := zz.Bool("tasks_come_from_a_flattened_include_named_like_a_prefix")
+	if flattened {
+		// a flattened include called "pre" with the tasks prebuild and build: no prefix is
+		// added, and the include's name must not be cut off the task names either
+		first, second = "prebuild", "build"
+	}
 	g := &zzGraph{Tasks: []zzTask{
-		{Name: "R", Cmds: []zzCmd{{Call: "docker:build"}, {Call: "npm:build"}, probe}},
-		{Name: "docker:build", Run: "once", Cmds: []zzCmd{probe}},
-		{Name: "npm:build", Run: "once", Cmds: []zzCmd{probe}},
+		{Name: "R", Cmds: []zzCmd{{Call: first}, {Call: second}, probe}},
+		{Name: first, Run: "once", Cmds: []zzCmd{probe}},
+		{Name: second, Run: "once", Cmds: []zzCmd{probe}},
 	}}
 	tf := g.build(zzFailingDefault(g))
+	if flattened {
+		merged := ast.NewTasks()
+		if err := merged.Merge(tf.Tasks, &ast.Include{Namespace: "pre", Flatten: true}, nil); err != nil {
+			zz.Assert(false, "merge-must-not-fail")
+			return
+		}
+		tf.Tasks = merged
+	}
 	tr, err := zzExec(g, tf, zzRunOpts{}, "R")
-	if g.exit["docker:build.0"] == 0 {
-		zz.Assert(zzCount(tr, "S", "npm:build.0") == 1, "once/distinct-tasks-each-execute")
-		if g.exit["npm:build.0"] != 0 {
+	if g.exit[first+".0"] == 0 {
+		zz.Assert(zzCount(tr, "S", second+".0") == 1, "once/distinct-tasks-each-execute")
+		if g.exit[second+".0"] != 0 {
 			zz.Assert(err != nil && zzCount(tr, "S", "R.2") == 0, "references-observe-failure/own-outcome")
 		}
 	}
